@@ -77,6 +77,9 @@ pub const HOSTILE_SQL: &[&str] = &[
     "WITH x AS (SELECT 900 AS id) INSERT INTO t1 (id, a) SELECT id, 'cte' FROM x",
     "SELECT crsql_set_db_version(crsql_site_id(), 999)",
     "SELECT crsql_begin_alter('t1')",
+    "SELECT crsql_config_set('merge-equal-values', 0)",
+    "SELECT crsql_as_table('t1')",
+    "SELECT crsql_commit_alter('t1')",
     "SELECT crsql_as_crr('t1')",
     "SELECT crsql_finalize()",
     "SELECT crsql_next_db_version()",
